@@ -82,8 +82,9 @@ def lganm_sample(self: Obj('sempler.lganm.LGANM', p=Int, W=Arr2, means=Arr1, var
     let(Mm=identity(self.p) - transpose(Wp))
     # population setting: the returned law solves the intervened structural equations
     #   (I - W'^T) mean = mu'   and   (I - W'^T) cov (I - W'^T)^T = diag(var')
-    ensures(implies(population, result.p == self.p and same_array(matmul(Mm, result.mean), mu)
-                    and same_array(matmul(matmul(Mm, result.covariance), transpose(Mm)), diag_of(var))))
+    ensures(implies(population, result.p == self.p))
+    ensures(implies(population, same_array(matmul(Mm, result.mean), mu)))
+    ensures(implies(population, same_array(matmul(matmul(Mm, result.covariance), transpose(Mm)), diag_of(var))))
     # finite samples (C04): numpy's multivariate normal applied to exactly that population law (witness: the local `distribution`)
     ensures_exists(implies(not population,
                            same_array(matmul(Mm, distribution.mean), mu)
@@ -100,6 +101,9 @@ def lganm_sample(self: Obj('sempler.lganm.LGANM', p=Int, W=Arr2, means=Arr1, var
     lemma(same_matrix(matmul(Mm, covariance), matmul(diag_of(variances), transpose(A))),
           same_matrix(matmul(matmul(Mm, covariance), transpose(Mm)), diag_of(variances)),
           same_matrix(diag_of(variances), diag_of(var)))
+    lemma(same_matrix(distribution.mean, mean), same_matrix(distribution.covariance, covariance))
+    lemma(same_matrix(matmul(Mm, distribution.mean), means), same_matrix(means, mu))
+    lemma(same_matrix(matmul(matmul(Mm, distribution.covariance), transpose(Mm)), diag_of(var)))
     reproducible(when=not population)
     fresh(result)
 
